@@ -5,8 +5,9 @@ Gen.eyeLen      : the `M is None` defaulting, the int() casts and the `data_leng
 Gen.eyeCoord    : the second `if k > 0 / elif k < 0 / else` of `eye`, read element-wise: `np.arange(data_length)` at
                   position t is t, `v + k` / `v - k` act per element.  Returns (row, column, 0) of the t-th stored one.
 Gen.randomBranch: the if/elif chain of `random` that picks the sampler.  Returns (code, n, N): which sampler and the
-                  (sample size, population) it is called with.  Codes (fixed by the `consts` below — a change of any
-                  call expression makes the translator refuse):
+                  (sample size, population) it is called with.  Codes (fixed by the `consts` below: the CALL shapes are pinned —
+                  another sampler, another argument order or a `reverse` over another population makes the translator refuse —
+                  the integer arguments are translated):
                     0 arange(elements)                       1 choice(elements, nnz)
                     2 reverse(choice(elements, elements-nnz)) 3 reverse(algD(nnztemp, elements))
                     4 reverse(algA(nnztemp, elements))        5 algD(nnz, elements)      6 algA(nnz, elements)
@@ -20,13 +21,13 @@ FILES = {
     "Common": {
         "file": "sparse/numba_backend/_common.py",
         "targets": [
-            dict(name="eyeLen", func="eye", select=("between", "if M is None", "if data_length == 0"),
+            dict(name="eyeLen", func="eye", select=("after", "from ._coo import COO", "if data_length == 0"),
                  tail="return data_length",
                  params=[("N", INT), ("M", OPT), ("k", INT)], ret="int",
                  note="number of ones: M defaulting, int casts, data_length arithmetic"),
-            dict(name="eyeCoord", func="eye", select=("between", "if k > 0", "coords = ", 1),
+            dict(name="eyeCoord", func="eye", select=("after", "if data_length == 0", "coords = "),
                  tail="return slice(n_coords, m_coords, 0)",
-                 consts={"np.arange(data_length, dtype=np.intp)": ("t", INT)},
+                 consts={"np.arange(data_length, dtype=np.intp)": "t"},
                  params=[("t", INT), ("k", INT)], ret="slice3",
                  note="coordinates of the t-th one, element-wise reading of the arange arithmetic; third component unused"),
         ],
@@ -36,14 +37,16 @@ FILES = {
         "targets": [
             dict(name="randomBranch", func="random", select=("if_else", "nnz == elements or density >= 1", "return ind"),
                  consts={
-                     "density >= 1": ("(dge1 = true)", "Prop"),
-                     "np.arange(elements)": ("((0 : Int), nnz, elements)", T3),
-                     "random_state.choice(elements, nnz)": ("((1 : Int), nnz, elements)", T3),
-                     "reverse(random_state.choice(elements, elements - nnz), elements)": ("((2 : Int), elements - nnz, elements)", T3),
-                     "reverse(algD(nnztemp, elements, random_state), elements)": ("((3 : Int), nnztemp, elements)", T3),
-                     "reverse(algA(nnztemp, elements, random_state), elements)": ("((4 : Int), nnztemp, elements)", T3),
-                     "algD(nnz, elements, random_state)": ("((5 : Int), nnz, elements)", T3),
-                     "algA(nnz, elements, random_state)": ("((6 : Int), nnz, elements)", T3),
+                     "density >= 1": "dge1",
+                     # `_N`, `_n`: pattern variables — the population and the sample size the sampler is handed, whatever
+                     # integer expressions they are (translated like any other); `reverse` must be given the same population
+                     "np.arange(_N)": "(0, nnz, _N)",
+                     "random_state.choice(_N, _n)": "(1, _n, _N)",
+                     "reverse(random_state.choice(_N, _n), _N)": "(2, _n, _N)",
+                     "reverse(algD(_n, _N, random_state), _N)": "(3, _n, _N)",
+                     "reverse(algA(_n, _N, random_state), _N)": "(4, _n, _N)",
+                     "algD(_n, _N, random_state)": "(5, _n, _N)",
+                     "algA(_n, _N, random_state)": "(6, _n, _N)",
                  },
                  params=[("nnz", INT), ("elements", INT), ("dge1", BOOL)], ret="slice3",
                  note="sampler selection: (code, sample size, population)"),
